@@ -1,7 +1,10 @@
 use crate::configs::system::SystemConfig;
 use crate::streaming::storage::SystemStorage;
 use crate::streaming::topics::topic::Topic;
+#[cfg(not(kani))]
 use ahash::AHashMap;
+#[cfg(kani)]
+use iggy::verif_model::map::AHashMap;
 use iggy::utils::byte_size::IggyByteSize;
 use iggy::utils::timestamp::IggyTimestamp;
 use std::fmt::Display;
